@@ -451,7 +451,7 @@ func (t *Tree) DoBounded(b *Bounding, fn Operation) bool {
 }
 
 func (n *Node) doBounded(fn Operation, b *Bounding, depth int) (done bool) {
-	if n.Left != nil && b.Min.Compare(n.Point, n.Plane) < 0 {
+	if n.Left != nil && b.Min.Compare(n.Point, n.Plane) <= 0 {
 		done = n.Left.doBounded(fn, b, depth+1)
 		if done {
 			return
@@ -463,7 +463,7 @@ func (n *Node) doBounded(fn Operation, b *Bounding, depth int) (done bool) {
 			return
 		}
 	}
-	if n.Right != nil && 0 < b.Max.Compare(n.Point, n.Plane) {
+	if n.Right != nil && 0 <= b.Max.Compare(n.Point, n.Plane) {
 		done = n.Right.doBounded(fn, b, depth+1)
 	}
 	return
